@@ -826,6 +826,14 @@ def rule_generators(ck):
              'truncating it loses one - the scale is 19 (49, 99), scale*h is no integer and the edges leave the decimal grid '
              '(magnitude_bins(5.0, 9.0, 0.05) ends at 9.000000000000012); the reciprocal may only be rounded / snapped to the nearest integer'
              % u(trunc[0])[:60]) if trunc else oo.ok('no truncation of the reciprocal step'))
+    # the scale must make BOTH scale*start and scale*h integers: where it combines the power of ten with the steps per unit it takes the
+    # larger of the two (for decimal steps the larger is a multiple of the smaller); the smaller one covers only one of them
+    mins = [n for n in ast.walk(scale) if isinstance(n, ast.Call) and (call_name(n) or '').split('.')[-1] in ('min', 'minimum', 'amin', 'fmin')
+            and any(isinstance(x, ast.BinOp) and isinstance(x.op, ast.Pow) and const_value(x.left) == 10 for x in ast.walk(n))]
+    if pows:
+        oo = ck.ob('C02-D5.larger', f, 'the scale is the larger of the power of ten and the steps per unit', rets[0])
+        (oo.fail('the scale is `%s`: the smaller of the two factors leaves scale*start or scale*h a non-integer (start 5.95, step 0.1: scale 10, '
+                 'start 59.5 rounds to 60, all edges shift by 0.05)' % u(mins[0])[:70]) if mins else oo.ok('no minimum of the two factors'))
     # magnitude_bins forwards (start, end, dmw) in order
     g = P.func('csep.core.regions.magnitude_bins')
     rets = [r for r in returns(g) if r.value is not None]
